@@ -341,7 +341,7 @@ MINI_RULES = [
 ]
 MINI_HOSTS = [
     # explicit rules: bare suffix / one label / two labels / spelling variants / inside a url
-    "uk", "co.uk", "a.co.uk", "b.a.co.uk", "c.b.a.co.uk", "d.c.b.a.com", "A.B.Co.UK", "a.co.uk.", "http://b.a.co.uk:8080/x?y#z", "a.com", "com",
+    "uk", "co.uk", "a.co.uk", "b.a.co.uk", "c.b.a.co.uk", "d.c.b.a.com", "A.B.Co.UK", "Stra\u00dfe.co.uk", "\u039f\u0394\u039f\u03a3.com", "a.co.uk.", "http://b.a.co.uk:8080/x?y#z", "a.com", "com",
     # private rule under a public one
     "github.io", "a.github.io", "b.a.github.io", "a.io",
     # wildcard: the extra label is part of the suffix; the bare parent matches no rule
@@ -375,6 +375,20 @@ def _psl_reference(rules, host):
         return None
     n = best[1]
     return ".".join(labels[:len(labels) - n]), ".".join(labels[len(labels) - n:])
+
+
+def mini_trie(repo, extra_rules=()):
+    """a SuffixTrie instance of the finite-domain interpreter holding the miniature rule list (Unknown / Raised propagate)"""
+    from ..microeval import instantiate
+    m = repo.mod("classes.suffix_trie")
+    cls = m.klass("SuffixTrie")
+    add = [st for st in cls.body if isinstance(st, ast.FunctionDef) and st.name == "add"]
+    if not add:
+        raise AnalysisError("SuffixTrie.add not found")
+    trie = instantiate(repo, m, cls)
+    for r, private in list(MINI_RULES) + list(extra_rules):
+        run_function(repo, FuncRef(m, add[0], "ural.classes.suffix_trie.SuffixTrie.add"), [trie, r], {"private": private})
+    return trie
 
 
 def model_table(ctx, rule):
